@@ -135,6 +135,33 @@ def run(res, tier):
                 res.ob('HANDOFF', f.where(c), '%s.Remove in %s can reach a notify routine under the same guard' % (tbl, f.q.split('::')[-1]), reach, function=f.q,
                        how='notify candidates at lines %s' % [x.get('l') for x in cands], key='HANDOFF|%s|%s:%d' % (f.q, tbl, nh),
                        message='%s removes an entry from %s and no notify routine is reachable afterwards in the same critical section: waiting threads are never woken (lost wake-up / stall)' % (f.q, tbl))
+    # ---- round-1 addition: RESTORE — the upgrade path gives up the caller's read locks in order to queue as a writer; whatever the outcome of that attempt, they are taken again
+    res.rule('RESTORE', 'LockReadWriteAux: after the read locks of the caller have been released for an upgrade, every path to a return re-acquires them (LockReadOnly), except the error return of the '
+                        'release itself: a failed try/timed upgrade leaves the lock state as it was', floor=1)
+    f = fx.fn1(RW + '::LockReadWriteAux')
+    unl = [c for c in P.calls(f, r'::UnlockReadOnly$')]
+    lro = [c for c in P.calls(f, r'::LockReadOnly$')]
+    # the release loop: the UnlockReadOnly call(s) from which a recursive LockReadWriteAux is reachable
+    rec = [c for c in P.calls(f, r'::LockReadWriteAux$')]
+    rel = [u for u in unl if rec and C.can_reach(f, P.pos_of(f, u), set(P.pos_of(f, r) for r in rec))]
+    if not rel or not lro:
+        raise AnalysisBroken('RESTORE: release loop / restore loop of the upgrade path not found')
+    for u in rel:
+        holders = set(v['d'] for v in f.walk() if v['k'] == 'VarDecl' and v['ch'] and u in list(v['ch'][0].walk()))
+        esc = set()
+        for blk in f.blocks.values():
+            if blk.cond is None or blk.cond not in f.nodes or len(blk.succ) != 2:
+                continue
+            n, pol = P.strip_not(f.nodes[blk.cond])
+            st = P.is_status_test(n)
+            if st and n.receiver() is not None and (A.strip_casts(n.receiver()).get('d') in holders or u in list(n.receiver().walk())):
+                fail_when_n = (st == 'err')
+                esc.add((blk.b, 0 if (pol == fail_when_n) else 1))
+        ok, path = P.must_follow(f, u, lro, escapes=esc)
+        res.ob('RESTORE', f.where(u), 'the read locks released for the upgrade are re-acquired on every path to a return', ok, function=f.q, key='RESTORE|%s' % f.q,
+               how='restore at line %s' % lro[0].get('l'),
+               message='LockReadWriteAux: a path from the release of the caller\'s read locks (line %s) reaches a return without LockReadOnly(): when the upgrade attempt fails (TryLockReadWrite, '
+                       'deadline) the caller has silently lost its read locks; its later UnlockReadOnly() fails and a writer can enter while the caller still believes it is reading' % u.get('l'))
     res.explanation = ('Static decision of the reader/writer mutex\'s structural invariants: %d accesses to the state tables all under _stateMutex (must-hold lock sets, helper preconditions inferred); the '
                        'admission tests contain the exclusion conjuncts; each of the %d registrations of a new executing thread is dominated by the true edge of the matching test under the same guard object; '
                        'waits happen with the lock released, inside loops that re-test admission; every departure from the executing table or the waiter tables can reach a notify routine in the same critical '
